@@ -71,6 +71,7 @@ theorem c05_code_shape :
       "2| return nil, err",
       "1| if err = v.aggregator.addResponse(r); err != nil",
       "2| return nil, err",
+      "1| v.approved = r.Status == StatusApproval",
       "1| return r, nil"] ∧
     Gen.VssFacts.verifyDeal = [
       "0| func VerifyDeal(d *Deal, inclusion bool) error",
@@ -384,8 +385,100 @@ theorem c05_code_shape :
       "10| case <-ctx.Done():",
       "10| case out <- dkg:",
       "9| return",
-      "1| return"] :=
-  ⟨rfl, rfl, rfl, rfl, rfl, rfl, rfl, rfl, rfl, rfl, rfl, rfl, rfl, rfl, rfl⟩
+      "1| return"] ∧
+    Gen.VssFacts.verifierDealCertified = [
+      "0| func DealCertified() bool",
+      "1| return v.approved && v.aggregator.DealCertified()"] ∧
+    Gen.VssFacts.aggDealCertified = [
+      "0| func DealCertified() bool",
+      "1| var verifiersUnstable int",
+      "1| if a == nil",
+      "2| return false",
+      "1| for i := range a.verifiers",
+      "2| if _, ok := a.responses[uint32(i)]; !ok",
+      "3| verifiersUnstable++",
+      "1| tooMuchComplaints := verifiersUnstable > 0 || a.badDealer",
+      "1| return a.EnoughApprovals() && !tooMuchComplaints"] ∧
+    Gen.VssFacts.enoughApprovals = [
+      "0| func EnoughApprovals() bool",
+      "1| var app int",
+      "1| for _, r := range a.responses",
+      "2| if r.Status == StatusApproval",
+      "3| app++",
+      "1| return app >= a.t"] ∧
+    Gen.VssFacts.verifierDeal = [
+      "0| func Deal() *Deal",
+      "1| if !v.EnoughApprovals() || !v.DealCertified()",
+      "2| return nil",
+      "1| return v.deal"] ∧
+    Gen.VssFacts.verifyJustification = [
+      "0| func verifyJustification(j *Justification) error",
+      "1| if _, ok := findPub(a.verifiers, j.Index); !ok",
+      "2| return errors.New(\"vss: index out of bounds in justification\")",
+      "1| r, ok := a.responses[j.Index]",
+      "1| if !ok",
+      "2| return errors.New(\"vss: no complaints received for this justification\")",
+      "1| if r.Status != StatusComplaint",
+      "2| return errors.New(\"vss: justification received for an approval\")",
+      "1| if err := a.VerifyDeal(j.Deal, false); err != nil",
+      "2| a.badDealer = true",
+      "2| return err",
+      "1| r.Status = StatusApproval",
+      "1| return nil"] ∧
+    Gen.VssFacts.verifierProcessJustification = [
+      "0| func ProcessJustification(dr *Justification) error",
+      "1| return v.aggregator.verifyJustification(dr)"] ∧
+    Gen.VssFacts.unsafeSetResponseDKG = [
+      "0| func UnsafeSetResponseDKG(idx uint32, approval bool)",
+      "1| r := &Response{ SessionID: v.aggregator.sid, Index: uint32(idx), Status: approval, }",
+      "1| v.aggregator.addResponse(r)"] ∧
+    Gen.VssFacts.newAggregator = [
+      "0| func newAggregator(suite suites.Suite, dealer kyber.Point, verifiers, commitments []kyber.Point, t int, sid []byte) *aggregator",
+      "1| agg := &aggregator{ suite: suite, dealer: dealer, verifiers: verifiers, commits: commitments, t: t, sid: sid, responses: make(map[uint32]*Response), }",
+      "1| return agg"] ∧
+    Gen.VssFacts.dkgCertified = [
+      "0| func Certified() bool",
+      "1| return len(d.QUAL()) >= len(d.participants)"] ∧
+    Gen.VssFacts.dkgQUAL = [
+      "0| func QUAL() []int",
+      "1| var good []int",
+      "1| d.qualIter(func(i uint32, v *vss.Verifier) bool {…})",
+      "2| func(i uint32, v *vss.Verifier) bool",
+      "3| good = append(good, int(i))",
+      "3| return true",
+      "1| return good"] ∧
+    Gen.VssFacts.dkgQualIter = [
+      "0| func qualIter(fn func(idx uint32, v *vss.Verifier) bool)",
+      "1| for i, v := range d.verifiers",
+      "2| if v.DealCertified()",
+      "3| if !fn(i, v)",
+      "4| break"] ∧
+    Gen.VssFacts.dkgProcessJustification = [
+      "0| func ProcessJustification(j *Justification) error",
+      "1| v, ok := d.verifiers[j.Index]",
+      "1| if !ok",
+      "2| return errors.New(\"dkg: Justification received but no deal for it\")",
+      "1| return v.ProcessJustification(j.Justification)"] ∧
+    Gen.VssFacts.dkgDeals = [
+      "0| func Deals() (map[int]*Deal, error)",
+      "1| deals, err := d.dealer.EncryptedDeals()",
+      "1| if err != nil",
+      "2| return nil, err",
+      "1| dd := make(map[int]*Deal)",
+      "1| for i := range d.participants",
+      "2| distd := &Deal{ Index: d.index, Deal: deals[i], }",
+      "2| if i == int(d.index)",
+      "3| if _, ok := d.verifiers[d.index]; ok",
+      "4| continue",
+      "3| if resp, err := d.ProcessDeal(distd); err != nil",
+      "4| panic(\"dkg: cannot process own deal: \" + err.Error())",
+      "3| else",
+      "4| if resp.Response.Status != vss.StatusApproval",
+      "5| panic(\"dkg: own deal gave a complaint\")",
+      "3| continue",
+      "2| dd[i] = distd",
+      "1| return dd, nil"] :=
+  ⟨rfl, rfl, rfl, rfl, rfl, rfl, rfl, rfl, rfl, rfl, rfl, rfl, rfl, rfl, rfl, rfl, rfl, rfl, rfl, rfl, rfl, rfl, rfl, rfl, rfl, rfl, rfl, rfl⟩
 
 
 /-- **1. `inconsistent_never_approved`.**  A verifier that has not yet received a deal answers an
